@@ -24,6 +24,7 @@ import os
 import random
 import subprocess
 import sys
+import tempfile
 import time
 import traceback
 
@@ -109,6 +110,7 @@ class Rec:
         self.vcount = {}
         self.samples = []
         self.extra = {}
+        self.shard = None
         self._state_buf = set()
 
     # -- counting -----------------------------------------------------
@@ -147,6 +149,7 @@ class Rec:
             "clause": clause,
             "case": jsonable(case),
             "detail": str(detail)[:2000],
+            "shard": self.shard,
         }
         if cls is None and self.mod is not None and hasattr(self.mod, "classify"):
             try:
@@ -195,6 +198,7 @@ def _work(arg):
     try:
         mod = load_check(check_id)
         rec = Rec(check_id, mod)
+        rec.shard = shard
         mod.run_shard(shard, rec)
         out = rec.payload()
         out["index"] = index
@@ -347,7 +351,14 @@ def run_check(check_id, tier, seed):
             except Exception as e:
                 raise InfraError(f"re-execution of a violating case raised {type(e).__name__}: {e} (signature {sig})")
             if sig not in probe.vcount:
-                raise InfraError(f"violation did not reproduce on re-execution (uncaptured nondeterminism?): {sig}; got {sorted(probe.vcount)}")
+                # The case alone does not fail: the violation may depend on what ran earlier in the same process
+                # (caches, compiled kernels). Re-run the whole shard in a fresh interpreter; the enumeration order
+                # inside a shard is fixed, so a genuine history-dependent violation shows up again.
+                if not shard_reproduces(check_id, vs[0], sig):
+                    raise InfraError(f"violation did not reproduce on re-execution of the case nor of its shard "
+                                     f"(uncaptured nondeterminism?): {sig}; got {sorted(probe.vcount)}")
+                vs[0] = dict(vs[0], case={"__shard__": vs[0].get("shard")},
+                             detail="[history-dependent: reproduces only after the earlier cases of its shard; replay re-runs the shard] " + vs[0]["detail"])
         nviol += counts[sig]
         nrep += 1
         path = write_replay(check_id, nrep, vs[0])
@@ -409,6 +420,17 @@ def run_check(check_id, tier, seed):
     return 1 if nviol else 0
 
 
+def shard_reproduces(check_id, violation, sig):
+    if violation.get("shard") is None:
+        return False
+    d = tempfile.mkdtemp(prefix="shard-replay-", dir=os.environ.get("MC_SCRATCH"))
+    path = os.path.join(d, "case.json")
+    with open(path, "w") as f:
+        json.dump({"property": check_id, "case": {"__shard__": violation["shard"]}}, f)
+    p = subprocess.run([sys.executable, os.path.join(VERIF, "run_check.py"), "--replay", path], capture_output=True, text=True)
+    return f"signature: {sig}" in p.stdout
+
+
 def run_replay(path):
     with open(path) as f:
         data = json.load(f)
@@ -417,7 +439,11 @@ def run_replay(path):
     if hasattr(mod, "prepare"):
         mod.prepare("quick")
     rec = Rec(check_id, mod)
-    mod.check_case(data["case"], rec)
+    if isinstance(data["case"], dict) and "__shard__" in data["case"]:
+        rec.shard = data["case"]["__shard__"]
+        mod.run_shard(data["case"]["__shard__"], rec)
+    else:
+        mod.check_case(data["case"], rec)
     known = {e["signature"] for e in load_known().get("open", []) if e.get("property") == check_id}
     bad = [v for v in rec.violations if v["signature"] not in known]
     for v in rec.violations:
